@@ -82,6 +82,7 @@ type Obligation struct {
 	All     []SolverResult
 	Inputs  []inputVar
 	Cases   []Term
+	RawQuery string
 	Model   map[string]string
 }
 
@@ -115,6 +116,7 @@ type VC struct {
 	keyInt   map[string]types.Type
 	cutsHit  map[string]bool
 	guardDefs map[Term][]Term
+	axiomLines map[int][]string
 	freeCells map[string]adv
 	recoverNil bool
 	noInlineLimit int
@@ -1924,6 +1926,22 @@ func (vc *VC) useAxioms() {
 			vc.errs = append(vc.errs, fmt.Sprintf("%s: %v", ax.Line, err))
 			continue
 		}
+		// relevance: the axiom is included in a query only if one of its function symbols occurs elsewhere
+		var syms []string
+		for name := range vc.eng.db.Uninterps {
+			if strings.Contains(t, "(u_"+name+" ") {
+				syms = append(syms, "(u_"+name+" ")
+			}
+		}
+		for _, sname := range []string{"(i2f ", "(f2i "} {
+			if strings.Contains(t, sname) {
+				syms = append(syms, sname)
+			}
+		}
+		if vc.axiomLines == nil {
+			vc.axiomLines = map[int][]string{}
+		}
+		vc.axiomLines[len(vc.lines)] = syms
 		vc.emit(fmt.Sprintf("(assert %s)", t))
 	}
 }
